@@ -31,6 +31,19 @@ def parseSlot (t : String) : Option Nat :=
   | some i => if i ≥ 0 && i < (maxSlot : Int) then some i.toNat else none
   | none => none
 
+def maxT : Nat := 16
+
+def parseTSlot (t : String) : Option Nat :=
+  match parseSlot t with
+  | some i => if i < maxT then some i else none
+  | none => none
+
+def parseSlots : List String → Option (List Nat)
+  | [] => some []
+  | t :: ts => match parseSlot t, parseSlots ts with
+    | some v, some vs => some (v :: vs)
+    | _, _ => none
+
 def parseVals : List String → Option (List Val)
   | [] => some []
   | t :: ts => match parseVal t, parseVals ts with
@@ -82,6 +95,15 @@ def parseOp (ws : List String) : Option Op :=
   | ["filter", c, k] => do some (.filter (← parseSlot c) (← parseInt k))
   | ["map", c, k] => do some (.map (← parseSlot c) (← parseInt k))
   | ["gc"] => some .gc
+  -- heap-Tuple operations (transcript only): syntax check, exactly as harness/h_cfg.c does it
+  | ["tcmp", a, b] => do let _ ← parseTSlot a; let _ ← parseTSlot b; some .harnessOnly
+  | "tnew" :: t :: ty :: xs => do let _ ← parseTSlot t; let _ ← parseTy ty; let _ ← parseSlots xs; some .harnessOnly
+  | "tcat" :: t :: xs => do let _ ← parseTSlot t; let _ ← parseSlots xs; some .harnessOnly
+  | ["tpush", t, x] | ["tmem", t, x] | ["trem", t, x] => do let _ ← parseTSlot t; let _ ← parseSlot x; some .harnessOnly
+  | ["tpushat", t, i, x] | ["tset", t, i, x] => do let _ ← parseTSlot t; let _ ← parseInt i; let _ ← parseSlot x; some .harnessOnly
+  | ["tpopat", t, i] | ["tget", t, i] | ["tresize", t, i] => do let _ ← parseTSlot t; let _ ← parseInt i; some .harnessOnly
+  | ["tpop", t] | ["titems", t] | ["tritems", t] | ["tlen", t] | ["tsort", t] | ["thash", t] | ["tdrop", t] | ["tdel", t] =>
+    do let _ ← parseTSlot t; some .harnessOnly
   | _ => none
 
 def showVal : Val → String
